@@ -161,7 +161,7 @@ fn case_impl(t0: &mut Tape, w: &Worker, exhaustive: bool) -> CaseResult {
     // from the end of a large payload, with the payload loaded or skipped)
     let large_payloads = !exhaustive && ot.chance(1, 6);
     if large_payloads {
-        let (fs, _) = gen::gen_frame_stream(t0, &gen::FrameOpts { max_packets: 24, word_payload: false, max_payload: 10_000, valid_layers: true, its_first: true, all_rdh0_valid: true, mostly_large: true });
+        let (fs, _) = gen::gen_frame_stream(t0, &gen::FrameOpts { max_packets: 24, word_payload: false, max_payload: 10_000, valid_layers: true, its_first: true, all_rdh0_valid: true, mostly_large: true, near_max: false });
         cs.stream = fs;
         out.labels.push("stream:large_raw_payloads".into());
     }
